@@ -79,7 +79,7 @@ pub const SAFE_IDENT: &[&str] = &[
 	"a", "b", "c", "d", "x", "y", "foo", "bar", "baz", "Foo", "Bar", "Baz", "Qux", "value", "get", "set", "A", "B", "C", "D", "E", "L", "I", "V", "Z", "J", "1",
 	"2x", "é", "日本", "𝔘x", "e\u{301}", "xC_1", "af_2", "am_3", "ap_4", "C_", "f_", "name", "of", "This",
 ];
-pub const HOSTILE_IDENT: &[&str] = &["a b", "a#b", "a<b", "b\\n", " x", "ACC:x", "x>", "\\"];
+pub const HOSTILE_IDENT: &[&str] = &["a b", "a#b", "a<b", "b\\n", " x", "ACC:x", "x>", "\\", " ", "\u{a0}", "\u{2003}\u{3000}", "007", "x "];
 pub const CLASS_PLACEHOLDER: &[&str] = &["C_1", "C_23", "C_456"];
 pub const FIELD_PLACEHOLDER: &[&str] = &["f_1", "f_22", "f_333"];
 pub const METHOD_PLACEHOLDER: &[&str] = &["m_1", "m_33", "m_444"];
